@@ -48,7 +48,7 @@ def shapeCands (R : List Route) (m : Bytes) (p : RPath) : List Route :=
 def rho (R : List Route) (m : Bytes) (p : RPath) : Option Route :=
   pick none (shapeCands R m p)
 
-/-- K01b: a route sharing `ρ`'s prefix offers, at some position, a compatible segment of strictly
+/-- K01b (repaired; kept for the as-shipped witness and for C11): a route sharing `ρ`'s prefix offers, at some position, a compatible segment of strictly
 higher priority — a descent that never backtracks leaves `ρ`'s branch there -/
 def dShadow1 (R : List Route) (m : Bytes) (p : RPath) : Bool :=
   !staticHit R m p &&
@@ -62,8 +62,8 @@ def dShadow1 (R : List Route) (m : Bytes) (p : RPath) : Bool :=
         | some a, some b, some x => compat a x && kind b < kind a
         | _, _, _ => false
 
-/-- constraints are only checked at the one leaf a descent reaches: `ρ` fails its own constraints
-while another pattern match passes its own -/
+/-- K01f (repaired; kept for the as-shipped witness and for C11): constraints were only checked at the one
+leaf a descent reached: `ρ` fails its own constraints while another pattern match passes its own -/
 def dCfall1 (sat : Nat → Bytes → Bool) (R : List Route) (m : Bytes) (p : RPath) : Bool :=
   !staticHit R m p &&
   match rho R m p with
@@ -100,24 +100,37 @@ def dCfall (sat : Nat → Bytes → Bool) (R : List Route) (req : Req) (p : RPat
 def dNames (R : List Route) (req : Req) (p : RPath) : Bool := (methodsOf req).any fun m => dNames1 R m p
 def dOverwrite (R : List Route) (req : Req) (p : RPath) : Bool := (methodsOf req).any fun m => dOverwrite1 R m p
 
-/-- another route has exactly `ρ`'s shape but another pattern, i.e. names a parameter differently (the tree
-keeps one leaf per shape, the compiled matcher one template per pattern text) — the part of K01c that
-the comparison of the two engines (C11) is sensitive to -/
-def dSameShape1 (R : List Route) (m : Bytes) (p : RPath) : Bool :=
-  !staticHit R m p &&
-  match rho R m p with
+/-- another route of the method has exactly the shape of the route the reference selects but another pattern,
+i.e. names a parameter differently (the tree keeps one leaf per shape, the compiled matcher one template per
+pattern text) — the part of K01c that the comparison of the two engines (C11) is sensitive to -/
+def dSameShape1 (sat : Nat → Bytes → Bool) (R : List Route) (m : Bytes) (p : RPath) : Bool :=
+  match refRoute sat R m p with
   | none => false
   | some ρ => (dynRoutes R m).any fun r1 => shapeEq r1.pat ρ.pat && r1.pat ≠ ρ.pat
 
-/-- the class token the driver prints (first that applies, most specific first). Since the K01a repair
-(a handler reads its parameters under the names of its own pattern) `names` is no longer a class; a
-same-shape overwrite (K01c) deviates exactly when the surviving registration fails its constraints
-while another candidate passes, so `overwrite` is the more specific name of such a `cfall` case. -/
+/-- the routes registered after (the first occurrence of) `ρ` -/
+def laterThan (ρ : Route) : List Route → List Route
+  | [] => []
+  | r :: rest => if r = ρ then rest else laterThan ρ rest
+
+/-- K01c, the one class left since the K01b/K01f repair (the descent backtracks): the route the reference
+selects was registered, and later a route of the same method with exactly its shape was registered too
+(`/u/:id` then `/u/:name`, or the same pattern again) — the tree keeps one leaf per shape, the later
+registration replaced the earlier one. (The later route itself does not match the request — otherwise the
+reference, which takes the last among equals, would have selected it.) -/
+def dReplaced1 (sat : Nat → Bytes → Bool) (R : List Route) (m : Bytes) (p : RPath) : Bool :=
+  match refRoute sat R m p with
+  | none => false
+  | some ρ => (laterThan ρ R).any fun r1 => r1.method = m && shapeEq r1.pat ρ.pat
+
+def dReplaced (sat : Nat → Bytes → Bool) (R : List Route) (req : Req) (p : RPath) : Bool :=
+  (methodsOf req).any fun m => dReplaced1 sat R m p
+
+/-- the class token the driver prints. Since the K01a repair (a handler reads its parameters under the
+names of its own pattern) and the K01b/K01f repair (the descent tries the next alternative when a subtree
+or a constraint fails) the only class left is K01c `overwrite`. -/
 def classify (sat : Nat → Bytes → Bool) (R : List Route) (req : Req) (p : RPath) : String :=
-  if dOverwrite R req p && dCfall sat R req p then "overwrite"
-  else if dShadow R req p then "shadow"
-  else if dCfall sat R req p then "cfall"
-  else "-"
+  if dReplaced sat R req p then "overwrite" else "-"
 
 /-- the domain of the equality: every pattern is in the property's vocabulary (`pat` is the parse of
 `text`), and every constraint names a parameter its own route declares (`filepath` for a trailing `*`;
